@@ -33,6 +33,8 @@ Next ==
     /\ i' = i + 1
     /\ LET e == TraceLog[i] IN
        CASE e.cat = "reset" -> cls' = << >> /\ bad' = bad
+         \* marks which storages the execution RETURNED (used by the harness to see whether a rejected operation can reach them)
+         [] e.cat = "result" -> cls' = cls /\ bad' = bad
          [] e.cat = "input" -> cls' = Update(cls, SeqSet(e.outs), "T") /\ bad' = bad
          [] OTHER ->
               LET ev == Ev(e)
